@@ -182,9 +182,10 @@ CLAIMED["C08"] = {
             "every proved arm of Exp::linearize returns a finite linear form or an error, and the exact Abs lowering returns the missing-bounds error instead of a constant when the operand's range is not finite. "
             "The row-name de-duplication loop of Linearizer::linearize (a statement slice lifted verbatim from the function) is proved to leave non-empty names pairwise distinct, to keep the first use of every user-written name, to keep unnamed rows unnamed and to give a renamed row a name no user wrote. "
             "The final assembly is proved as two more slices (U08.asm): the position table maps the i-th variable name to i (for a duplicate-free list), and row k of the model is the named row k laid out by that table - one entry per position, the named coefficient where the row has one, 0 elsewhere; comparison, right-hand side and name carried over; "
-            "a tiling guard keeps every other top-level statement of Linearizer::linearize listed. "
+            "The variable list and the domain of the compiled model are proved too (U08.vars, with Linearizer::used_variables): the list holds exactly the used variables of the context, each once, sorted (sort and contains on Vec<String> through a trusted stub), and the domain keeps exactly the entries of the listed variables, unchanged - the first claim of the property. "
+            "A tiling guard keeps every other top-level statement of Linearizer::linearize listed. "
             "Sortedness / key-set equality of the variable list, presence of every referenced variable, one finite coefficient per variable and the missing-bounds error are additionally checked on the whole real Linearizer::linearize by a BOUNDED search over a family of models (labelled, not counted as proved). "
-            "NOT decided deductively: the used-variable collection and sort (iterator chains), auxiliary-name collision freedom (names are format! strings abstracted to opaque values by rule R6), the logic arms, termination of the name search.",
+            "NOT decided deductively: that every variable occurring in a row is marked used, auxiliary-name collision freedom (names are format! strings abstracted to opaque values by rule R6), the logic arms, termination of the name search.",
     "note": "Trusted: prelude/f64_layer.rs, prelude/smap.rs, prelude/std_stubs.rs. BoundsAnalyzer::bounds_of is used through its contract (proved in U07.fwd).",
     "technique": "Verus contracts on extracted extract_coeffs / add_constraint / declare_variable / Exp::linearize arms (finite-or-error postcondition) and loop invariants on the name de-duplication slice of Linearizer::linearize; bounded executable-postcondition search on the whole function",
     "design_ref": "DESIGN.md §5 C08",
